@@ -75,7 +75,7 @@ def oracle_effects(R, tier, seed):
         for (nx, ny) in ([(2, 5), (3, 5)] if tier == "quick" else [(2, 5), (3, 5), (4, 7), (2, 9)]):
             m = gen.rand_mesh(rng, nx, ny, kind, plain=True, offset=False)
             m[:, :, 0] += np.abs(m[:, :, 1]) * 0.2           # some initial sweep
-            sym = kind != "full"; rap = float(rng.choice([0.25, 0.6]))
+            sym = kind != "full"; rap = float(rng.choice([0.25, 0.6, 0.0, 1.0]))
             ra0 = rap * m[-1] + (1 - rap) * m[0]
             yroot = 0.0
             base = {"name": "w", "mesh": m, "symmetry": sym, "ref_axis_pos": rap}
